@@ -928,6 +928,29 @@ def paths_of(e, limit=4096):
         if len(out) > limit:
             return
         if isinstance(x, tuple) and x and x[0] == 'ite':
+            # a condition that is a boolean temp computed by a match (`matches!(c, 'a' | 'b')`, possibly negated):
+            # report the scrutinee's cases instead of the temp
+            neg, y = False, x[1]
+            while isinstance(y, tuple) and y and y[0] == 'un' and y[1] == 'Not':
+                neg, y = not neg, y[2]
+            vals = [v for v, _ in x[2]]
+            if isinstance(y, tuple) and y and y[0] == 'ite' and set(vals) <= {0, 1, 'otherwise'} and \
+                    all(isinstance(l, tuple) and l and l[0] == 'int' and l[2] == 'bool' for _, l in y[2]):
+                inner_all = tuple(c for c, _ in y[2])
+                for iv, leaf in y[2]:
+                    tv = bool(leaf[1]) != neg
+                    # which outer branch does this truth value take
+                    tgt = None
+                    for v, sub in x[2]:
+                        if (v == 0 and not tv) or (v == 1 and tv):
+                            tgt = sub
+                    if tgt is None:
+                        for v, sub in x[2]:
+                            if v == 'otherwise':
+                                tgt = sub
+                    if tgt is not None:
+                        rec(tgt, conds + ((y[1], iv, inner_all),))
+                return
             for v, sub in x[2]:
                 rec(sub, conds + ((x[1], v, tuple(c for c, _ in x[2])),))
         else:
